@@ -64,7 +64,7 @@ CHECKS.update({
   note="Depth-bounded; events separated by quiescence (exact ties of reply/T3/cancel are not enumerated by this part). HSMS-SS. The genuine defects this check found are repaired in /repo: a control response colliding with an open data transaction completing it with (nil,nil) (fix: 0542585), the same stray costing the transaction its reply (2f35c30), and a reply that ties with T3 / teardown / cancellation reaching nobody (2cc474c); the last two were found by the E3 part."),
  "C20": dict(engine="E2-bubble + E3-sched", cat="model_checking", tech=E2 + "; schedule part: " + E3,
   text="Tree search: every history of length <= 3 over a 23-symbol alphabet and <= 4 over 14 symbols (thorough deeper), with at most 3 sends: the 5 send entry points, stall+write-timeout and reset-under-blocked-write errors, reply / Reject / cancel / T3, drop, reconnect, refused dials, Deselect/Select, inbound data, malformed frames, Close. At every quiescent point all eight metrics are compared with a reference ledger of the documented per-outcome vectors and with the peer's own count of data frames received over all TCP generations: in-flight >= 0 and equal to waiting sends, Reconnecting > 0 exactly while the backoff loop runs, 0 after Close.",
-  note="Depth-bounded, quiescent points only (gauge between scheduling points is not enumerated); HSMS-SS only; Reconnects() checked for the active role. Trusted: synctest, sim, ledger derived from the doc comments."),
+  note="Depth-bounded; the E2 parts look at quiescent points, the E3 part (checks/c20s) at every scheduling point of its scenarios (gauge under overlapping completions, reply/T3 tie, overlapping reconnect loops); HSMS-SS by the full alphabet, SECS-I by part checks/c20t (histories <= 3 over 8 events incl. retransmitted blocks); Reconnects() checked for the active role. Trusted: synctest, sim, ledger derived from the doc comments."),
 })
 
 CHECKS.update({
